@@ -158,6 +158,76 @@ mod nb {
     }
 }
 
+// ---------------------------------------------------------------------------------------------- payload (C06)
+// What `into_payload()` hands back delivers exactly the bytes the reader had not consumed, unmodified, then end-of-stream:
+// for every content of the bytes, over a source that fragments to 3 bytes per read.  (Same-kind paths only: a blocking
+// payload read through `Read`, an async payload polled through `AsyncRead`; the cross paths go through
+// `AllowStdIo` / `block_on` and belong to C08.)
+/// the async arm of `Read for IppPayload` (`block_on`) is unreachable for a blocking payload and its thread-parking
+/// intrinsics crash the Kani compiler: stubbed out
+fn never_block_on<F: std::future::Future>(_f: F) -> F::Output {
+    panic!("block_on reached from a blocking payload")
+}
+
+#[kani::proof]
+#[kani::unwind(10)]
+#[kani::stub(futures_executor::block_on, never_block_on)]
+fn payload_after_tag_blocking() {
+    let f = Frag { data: kani::any(), pos: 0, avail: 8, chunk: 3, hiccup: false, eof: true };
+    let d = f.data;
+    let mut r = IppReader::new(f);
+    let t = r.read_tag();
+    assert!(t.is_ok() && t.unwrap() == d[0]);
+    let mut p = r.into_payload();
+    let mut got = [0u8; 8];
+    let mut n = 0usize;
+    let mut rounds = 0;
+    while rounds < 4 {
+        match p.read(&mut got[n..]) {
+            Ok(k) => n += k,
+            Err(_) => assert!(false, "payload read failed"),
+        }
+        rounds += 1;
+    }
+    assert!(n == 7);
+    let mut i = 0;
+    while i < 7 {
+        assert!(got[i] == d[i + 1]);
+        i += 1;
+    }
+    let mut one = [0u8; 1];
+    assert!(matches!(p.read(&mut one), Ok(0)));
+}
+
+#[kani::proof]
+#[kani::unwind(10)]
+fn payload_async_kind() {
+    use futures_util::io::AsyncRead;
+    use std::pin::Pin;
+    use std::task::{Context, Poll, Waker};
+    let f = Frag { data: kani::any(), pos: 0, avail: 8, chunk: 3, hiccup: false, eof: true };
+    let d = f.data;
+    let r = ipp::reader::AsyncIppReader::new(nb::AFrag(f));
+    let mut p = r.into_payload();
+    let mut cx = Context::from_waker(Waker::noop());
+    let mut got = [0u8; 9];
+    let mut n = 0usize;
+    let mut rounds = 0;
+    while rounds < 4 {
+        match Pin::new(&mut p).poll_read(&mut cx, &mut got[n..]) {
+            Poll::Ready(Ok(k)) => n += k,
+            _ => assert!(false, "payload poll failed or was not ready"),
+        }
+        rounds += 1;
+    }
+    assert!(n == 8);
+    let mut i = 0;
+    while i < 8 {
+        assert!(got[i] == d[i]);
+        i += 1;
+    }
+}
+
 macro_rules! cfgs {
     ($($b:ident, $a:ident: ($avail:expr, $eof:expr, $hiccup:expr);)*) => {
         $( #[kani::proof] #[kani::unwind(12)] fn $b() { blocking($avail, $eof, $hiccup); }
